@@ -32,6 +32,28 @@ fn make_split(g: &Grammar, rng: &mut Rng, levels: usize) -> Split {
     let (mut nested, mut subdir) = (false, false);
     let mut i = 0;
     let mut ninc = 0;
+    // an /include inside an IF_DATA block (the content is interpreted with the A2ML definition of the module)
+    if rng.chance(1, 3) {
+        let a2ml = "/begin A2ML\nblock \"IF_DATA\" taggedunion { \"XCP\" taggedstruct { (\"EV\" uint)*; block \"BLK\" taggedstruct { (\"E2\" uint)*; }; \"N\" uint; }; };\n/end A2ML\n";
+        let inner = rng.chance(1, 2);
+        let fname = if rng.chance(1, 2) { "ifd/events.a2l" } else { "events.a2l" };
+        subdir |= fname.contains('/');
+        let shown = if rng.chance(1, 3) { fname.replace('/', "\\") } else { fname.to_string() };
+        let (inc_content, pre, post) = if inner {
+            ("E2 7 E2 0x8\n", "/begin IF_DATA XCP EV 1 /begin BLK E2 6\n", "\nE2 9 /end BLK N 5\n/end IF_DATA\n")
+        } else {
+            ("EV 2 EV 0x3\n", "/begin IF_DATA XCP EV 1\n", "\nEV 4 N 5\n/end IF_DATA\n")
+        };
+        files.push((fname.to_string(), inc_content.to_string()));
+        main.push_str(a2ml);
+        main.push_str(pre);
+        main.push_str(&format!("/include \"{shown}\""));
+        main.push_str(post);
+        flat.push_str(a2ml);
+        flat.push_str(pre);
+        flat.push_str(inc_content);
+        flat.push_str(post);
+    }
     while i < children.len() {
         if rng.chance(1, 3) && i + 1 < children.len() {
             // a run of 1..4 children goes into an include file
